@@ -20,6 +20,7 @@ import (
 	"math/rand"
 	"os"
 	"os/exec"
+	"os/signal"
 	"path/filepath"
 	"strconv"
 	"sync"
@@ -72,6 +73,13 @@ func TestVerifC07Child(t *testing.T) {
 	cache, cfg := vNewCfg(rec, []Issuer{iss}, func(c *Config, _ *CacheOptions) { c.ReusePrivateKeys = reuse })
 	defer cache.Stop()
 	os.WriteFile(filepath.Join(dir, "child.started"), []byte("x"), 0o600)
+	if lim, _ := strconv.Atoi(os.Getenv("VERIF_FSIZE")); lim > 0 {
+		// from here on every file write beyond `lim` bytes fails part-way (EFBIG): a REAL failing
+		// store in the middle of the bundle, through the real FileStorage
+		signal.Ignore(syscall.SIGXFSZ)
+		syscall.Setrlimit(syscall.RLIMIT_FSIZE, &syscall.Rlimit{Cur: uint64(lim), Max: uint64(lim)})
+		rec.OnOpCtx = nil
+	}
 	var err error
 	if op == "obtain" {
 		err = cfg.ObtainCertSync(context.Background(), c07pName)
@@ -175,4 +183,57 @@ func TestVerifC07Proc(t *testing.T) {
 		}(i)
 	}
 	wg.Wait()
+}
+
+// A store that fails part-way through the real FileStorage (file size limit in a child process):
+// the certificate does not fit, the key and the metadata do. Whatever the failed operation
+// leaves behind, a fresh instance ends up serving a valid certificate with a matching key.
+func TestVerifC07FailingStore(t *testing.T) {
+	o := vOpen(t, "C07fsize")
+	defer o.Close()
+	for i, c := range []struct {
+		op    string
+		reuse bool
+	}{{"obtain", false}, {"renew", true}, {"renew", false}, {"obtain", true}} {
+		dir, _ := os.MkdirTemp("", "verif-c07f-")
+		ca := vNewCA("c07p")
+		c07pSaveCA(dir, ca)
+		store := &FileStorage{Path: filepath.Join(dir, "store")}
+		if c.op == "renew" {
+			iss := vNewIssuer("ca-one", ca)
+			c0, cfg0 := vNewCfg(store, []Issuer{iss}, func(cf *Config, _ *CacheOptions) { cf.ReusePrivateKeys = c.reuse })
+			if err := cfg0.ObtainCertSync(context.Background(), c07pName); err != nil {
+				t.Errorf("prep: %v", err)
+			}
+			c0.Stop()
+		}
+		crtLen := len(c07pRead(dir, ".crt"))
+		limit := 700 // a P-256 key (~230 bytes) and the metadata fit, a certificate chain (>1000 bytes) does not
+		cmd := exec.Command(os.Args[0], "-test.run", "^TestVerifC07Child$", "-test.count=1")
+		cmd.Env = append(os.Environ(), "VERIF_CHILD=c07p", "VERIF_DIR="+dir, "VERIF_OP="+c.op, "VERIF_REUSE="+strconv.Itoa(b01(c.reuse)), "VERIF_FSIZE="+strconv.Itoa(limit))
+		cmd.Run()
+		doneB, _ := os.ReadFile(filepath.Join(dir, "child.done"))
+		if string(doneB) == "<nil>" {
+			o.Stat("failing_store_rig_not_effective", 1) // the operation succeeded: no EFBIG here, nothing to judge
+			os.RemoveAll(dir)
+			continue
+		}
+		iss := vNewIssuer("ca-one", ca)
+		cache, cfg := vNewCfg(store, []Issuer{iss}, func(cf *Config, _ *CacheOptions) { cf.ReusePrivateKeys = c.reuse })
+		ctx, cancel := context.WithTimeout(context.Background(), 40*time.Second)
+		err := cfg.ManageSync(ctx, []string{c07pName})
+		cancel()
+		ok := err == nil
+		if ok {
+			cc, gerr := cfg.GetCertificate(&tls.ClientHelloInfo{ServerName: c07pName, Conn: c07Conn{}})
+			ok = gerr == nil && cc != nil && cc.Leaf != nil && time.Now().Before(cc.Leaf.NotAfter)
+		}
+		cache.Stop()
+		if !ok {
+			o.Mon(fmt.Sprintf("C07 failing-store unrecoverable-after-failed-store op=%s reuse=%d", c.op, b01(c.reuse)),
+				map[string]any{"rig": "RLIMIT_FSIZE", "case": i, "limit": limit, "certificate_bytes_before": crtLen, "child_error": string(doneB), "error": fmt.Sprint(err)})
+		}
+		o.Stat("failing_store_runs_checked", 1)
+		os.RemoveAll(dir)
+	}
 }
